@@ -88,6 +88,8 @@ BuildEv(s0, in, s1) ==
                            !.wf = b.bad # "badobj", !.robjs = robjs,
                            !.obid = IF isCtl THEN 2000 + CtlIx(b.ob) + (IF b.ob = "a2" THEN 10 ELSE 0) ELSE bid]
                  @@ [base EXCEPT !.cls = IF b.bad # "" THEN b.bad ELSE "ok"]
+         [] in.k = "app" ->
+              base @@ [app |-> [b \in {"time", "local", "trouble", "cfg"} |-> IF b = in.bit THEN (IF in.on THEN 1 ELSE 0) ELSE -1]]
          [] in.k = "conf" -> [rxf(0, in.seq, in.uns, <<>>, 999) EXCEPT !.src = Fld(in, "src", "M")] @@ base
          [] OTHER -> base
 
